@@ -3349,6 +3349,14 @@ tsk_treeseq_update_site_afs(const tsk_treeseq_t *self, const tsk_site_t *site,
     /* Sum over the allele weights. Skip the ancestral state if polarised. */
     for (allele = polarised ? 1 : 0; allele < num_alleles; allele++) {
         allele_count = GET_2D_ROW(allele_counts, K, allele);
+        /* Mutation parents are not checked when a tree sequence is created, and
+         * wrong ones give counts outside the range of the sample sets. */
+        for (k = 0; k < K; k++) {
+            if (!(allele_count[k] >= 0 && allele_count[k] <= total_counts[k])) {
+                ret = tsk_trace_error(TSK_ERR_BAD_MUTATION_PARENT);
+                goto out;
+            }
+        }
         all_samples = (tsk_size_t) allele_count[num_sample_sets];
         if (all_samples > 0 && all_samples < self->num_samples) {
             for (k = 0; k < num_sample_sets; k++) {
